@@ -43,7 +43,7 @@ def gen_exact(rng, n, tier):
         vals = rng.choice([[0, 1], [0, 1, 2, 3], [0, 1, 2, 5, 9]])
         dim = rng.choice([2, 2, 1])                                  # dim 1: the altitude column carries the signal, the abscissa is noise for the distance
         zv = (lambda: rng.choice(vals)) if dim == 1 else (lambda: rng.choice([0, 0, 3]))
-        out.append({'x1': [[rng.choice(vals), 0, zv()] for _ in range(n1)], 'x2': [[rng.choice(vals), 0, zv()] for _ in range(n2)], 'p': rng.choice([1, 2, INF]), 'dim': dim, 'rematch': rng.choice([None, None, None, 'dtw', 'frechet']), 'ptype': rng.choice([None, None, 'float', 'np.int64', 'np.float64', 'np.int32'])})
+        out.append({'x1': [[rng.choice(vals), 0, zv()] for _ in range(n1)], 'x2': [[rng.choice(vals), 0, zv()] for _ in range(n2)], 'p': rng.choice([1, 2, INF]), 'dim': dim, 'rematch': rng.choice([None, None, None, 'dtw', 'frechet']), 'ptype': rng.choice([None, None, 'float', 'np.int64', 'np.float64', 'np.int32']), 'later': rng.random() < 0.3})
     return out
 
 
@@ -53,7 +53,7 @@ def gen_planar(rng, n, tier):
         n1 = rng.randint(1, 6)
         n2 = rng.randint(1, 6)
         pt = lambda: [rng.randint(-30, 30) / 4.0, rng.randint(-30, 30) / 4.0, rng.choice([0.0, 0.0, rng.randint(-20, 20) / 4.0])]
-        out.append({'x1': [pt() for _ in range(n1)], 'x2': [pt() for _ in range(n2)], 'p': rng.choice([1, 2, INF]), 'dim': rng.choice([2, 2, 1, 3]), 'rematch': rng.choice([None, None, None, 'dtw', 'frechet']), 'ptype': rng.choice([None, None, 'float', 'np.int64', 'np.float64', 'np.int32'])})
+        out.append({'x1': [pt() for _ in range(n1)], 'x2': [pt() for _ in range(n2)], 'p': rng.choice([1, 2, INF]), 'dim': rng.choice([2, 2, 1, 3]), 'rematch': rng.choice([None, None, None, 'dtw', 'frechet']), 'ptype': rng.choice([None, None, 'float', 'np.int64', 'np.float64', 'np.int32']), 'later': rng.random() < 0.3})
     return out
 
 
@@ -89,6 +89,10 @@ def run_impl(case):
     else:
         m = cmp.match(t1, t2, mode=cmp.MODE_MATCHING_DTW, p=p, dim=dim, verbose=False)
         fre = None
+    if case.get('later'):                         # the same first track is matched against another track afterwards: the result obtained before is the caller's and must stay what it was
+        t4 = mk([[v[0] + 1.5] + list(v[1:]) for v in case['x2'][::-1]] + case['x1'][:2])
+        cmp.match(t1, t4, mode=cmp.MODE_MATCHING_DTW, p=1, dim=dim, verbose=False)
+        cmp.match(t1, t4, mode=cmp.MODE_MATCHING_FRECHET, dim=dim, verbose=False)
     f = cmp.match(t1, t2, mode=cmp.MODE_MATCHING_FDTW, p=p, dim=dim, verbose=False)
     s = cmp.match(t2, t1, mode=cmp.MODE_MATCHING_FRECHET if p == INF else cmp.MODE_MATCHING_DTW, p=p, dim=dim, verbose=False)
     pairs = [[int(i) for i in m['pair', j]] for j in range(len(case['x1']))]
